@@ -218,7 +218,9 @@ impl Sched {
         let y = self.inner.borrow().yielders[tid];
         // SAFETY: the yielder of coroutine `tid` lives as long as the coroutine, and we are
         // running on that coroutine's stack.
+        let tracking = alloc::suspend();
         unsafe { (*y).suspend(()) };
+        alloc::resume(tracking);
         !self.inner.borrow().aborting
     }
 
@@ -227,6 +229,7 @@ impl Sched {
             // an unwinding thread runs its destructors without yielding
             return;
         }
+        alloc::note(a);
         {
             let mut g = self.inner.borrow_mut();
             g.clock += 1;
